@@ -1,15 +1,165 @@
-(* C12 scenarios (kind OT): compare the observed outcome of every outage scenario with the
-   prediction of the reachability-protocol model (Reach.predict) and evaluate the property: the
-   tower recovers by itself, refuses work while it knows the node is down, and ends in the state
-   of the fault-free twin. *)
+(* C12 scenarios (kind OT).  For every outage scenario:
+   - the observed outcome class is compared with the prediction of the abstract protocol model (Reach.predict);
+   - the scenario is REPLAYED on the extracted thread-level model (ConcReach: ConcTower's thread programs, the
+     Carrier's wait-and-retry recursion, the chain monitor's poll) under the same oracle (the n-th request after
+     the marked point and every later one hit a transport error until the node is back; the j-th block download
+     fails) and the same schedule class (each step runs its thread until it returns or blocks; woken threads run
+     on), and compared with what hook H3 and the simulated node saw: per thread, the SEQUENCE of requests put on
+     the wire (kind, transaction, answered / transport error) from the marked point on, and the locks kept at
+     each condition-variable wait; and which threads are stuck at the end;
+   - the property monitors are evaluated on the IMPLEMENTATION's observations: Coq's `retry_ok` on every
+     thread's wire log ("after a transport error the next request of that thread is the same call"), the tower
+     recovers by itself, refuses work while it knows the node is down, ends in the state of the fault-free twin. *)
 open Model
 open Driver_util
 
 let cases = ref 0 and hits = ref 0 and corr_fail = ref 0 and mon_fail = ref 0 and probes = ref 0
+let blocks_checked = ref 0 and refused_adds = ref 0
+let replayed = ref 0 and wire_checked = ref 0 and wire_errors = ref 0 and waits_compared = ref 0
 let distinct : (string, unit) Hashtbl.t = Hashtbl.create 64
 let twin_state : (string, string) Hashtbl.t = Hashtbl.create 16
 let classes : (string, int) Hashtbl.t = Hashtbl.create 8
 let bump k = Hashtbl.replace classes k (1 + (try Hashtbl.find classes k with Not_found -> 0))
+
+let log_enabled = true
+let big = nat_of_int 6000
+let split c s = if s = "" then [] else String.split_on_char c s
+
+(* ---- the implementation's traces ---- *)
+type wire = { role : string; kind : int; tx : int; answered : bool }
+let parse_wire (s : string) : wire list =
+  List.map (fun it -> match split ':' it with
+    | [r; k; t; a] -> { role = r; kind = int_of_string k; tx = int_of_string t; answered = (a = "K") }
+    | _ -> failwith ("bad wire item " ^ it)) (split '/' s)
+(* per role, the waits with the locks kept (sorted ids) *)
+let parse_waits (s : string) : (string * int list) list =
+  List.concat (List.map (fun it -> match split ':' it with
+    | [r; "W"; h] -> [(r, List.sort compare (List.map int_of_string (split '+' h)))]
+    | _ -> []) (split '/' s))
+
+let roles_of (l : (string * 'a) list) : string list = List.sort_uniq compare (List.map fst l)
+let of_role r l = List.map snd (List.filter (fun (r', _) -> r' = r) l)
+
+(* transactions renamed by first appearance: what is compared is the pattern of repetitions *)
+let canon (l : (int * int * bool) list) : (int * int * bool) list =
+  let tbl = Hashtbl.create 8 in
+  List.map (fun (k, t, a) ->
+    let c = (match Hashtbl.find_opt tbl t with Some c -> c | None -> let c = Hashtbl.length tbl in Hashtbl.replace tbl t c; c) in
+    (k, c, a)) l
+let show_seq l = String.concat "," (List.map (fun (k, t, a) -> Printf.sprintf "%s%d%s" (if k = 0 then "g" else "s") t (if a then "" else "!")) l)
+let show_waits l = String.concat "," (List.map (fun h -> String.concat "+" (List.map string_of_int h)) l)
+
+(* Coq's monitor on a thread's wire log *)
+let retry_monitor (l : wire list) : bool =
+  let obs = List.map (fun w ->
+    Some (((if w.kind = 0 then K_getraw else K_send), n_of_int (if w.tx < 0 then 999999 else w.tx)),
+          (if w.answered then CallVerdict IrrevocablyResolved else CallErr))) l in
+  retry_ok obs
+
+(* ---- the scenario on the model ---- *)
+type item = IOp of op | IMine of int list | IPoll | IArm of int | IUp | IFail of int | IOther
+let parse_item (s : string) : item =
+  let sg x = if int_of_string x < 0 then None else Some (n_of_int (int_of_string x)) in
+  match split ':' s with
+  | ["R"; u] -> IOp (ORegister (n_of_int (int_of_string u)))
+  | ["A"; u; loc; key; pay; len; delay] ->
+      let p = int_of_string pay in
+      IOp (OAdd (sg u, n_of_int (int_of_string loc),
+                 { b_key = n_of_int (int_of_string key); b_pay = (if p < 0 then None else Some (n_of_int p)); b_len = n_of_int (int_of_string len) },
+                 n_of_int (int_of_string delay), n_of_int 1))
+  | ["G"; u; loc] -> IOp (OGet (sg u, n_of_int (int_of_string loc)))
+  | ["S"; u] -> IOp (OGetSub (sg u))
+  | "M" :: txs -> IMine (List.map int_of_string (List.filter (fun x -> x <> "") txs))
+  | ["P"] -> IPoll
+  | ["O"; n] -> IArm (int_of_string n)
+  | ["U"] -> IUp
+  | ["F"; j] -> IFail (int_of_string j)
+  | _ -> IOther
+
+let rec perms = function
+  | [] -> [[]]
+  | l -> List.concat (List.map (fun x -> List.map (fun p -> x :: p) (perms (List.filter (fun y -> y <> x) l))) l)
+(* a block with several watched transactions: the tower walks a HashMap, any order is the tower's *)
+let rec variants (items : item list) : item list list =
+  match items with
+  | [] -> [[]]
+  | IMine txs :: r when List.length txs >= 2 && List.length txs <= 3 ->
+      List.concat (List.map (fun p -> List.map (fun v -> IMine p :: v) (variants r)) (perms txs))
+  | x :: r -> List.map (fun v -> x :: v) (variants r)
+
+type model_obs = { m_wire : (string * (int * int * bool)) list; m_waits : (string * int list) list; m_deliv : int list;
+                   m_mon_stuck : bool; m_api_stuck : bool; m_note : string }
+
+let count_errs (c : rconf) = List.length (List.filter (fun (_, e) -> match e with EvRpc (_, _, CallErr) -> true | _ -> false) c.rc_log)
+
+let replay (items : item list) : model_obs option =
+  let cfg = { c_slots = n_of_int 50; c_duration = n_of_int 400; c_delta = n_of_int 10 } in
+  let h0 = 120 in
+  let last_blocks = List.init 100 (fun k -> (n_of_int (1000 + h0 - k), [])) in
+  match init cfg (n_of_int h0) last_blocks with
+  | None -> None
+  | Some t0 ->
+    let rec split_at acc = function
+      | [] -> (List.rev acc, [])
+      | ((IArm _ | IFail _) :: _) as tail -> (List.rev acc, tail)
+      | x :: r -> split_at (x :: acc) r in
+    let (prefix, tail) = split_at [] items in
+    if tail = [] || List.mem IOther items then None else begin
+      (* the prefix, sequentially (Tower.step) *)
+      let t = ref t0 and pending = ref [] and height = ref h0 and next_hash = ref 3000 and napi = ref 0 and ok = ref true in
+      List.iter (fun it -> match it with
+        | IOp o -> incr napi; (match Model.step log_enabled !t o [] with (_, OAbort _) -> ok := false | (t1, _) -> t := t1)
+        | IMine txs -> incr next_hash; pending := !pending @ [(n_of_int !next_hash, List.map n_of_int txs)]
+        | IPoll ->
+            List.iter (fun (h, txs) -> incr height;
+              match Model.step log_enabled !t (OConnect (h, txs)) [] with (_, OAbort _) -> ok := false | (t1, _) -> t := t1) !pending;
+            pending := []
+        | _ -> ()) prefix;
+      if not !ok then None else begin
+        let ops = List.concat (List.map (function IOp o -> [o] | _ -> []) tail) in
+        let specs = TMonitor (nat_of_int 40) :: List.map (fun o -> TApi o) ops in
+        let progs = List.map (thread_p log_enabled [] (nat_of_int 6) (nat_of_int 12)) specs in
+        let c = ref (rinit (set_rpc_log !t []) true progs !pending (n_of_int !height) [] []) in
+        let started = ref 0 and errs = ref 0 in
+        let nthreads = List.length progs in
+        let thread i = List.nth !c.rc_threads i in
+        let settle () =
+          (* woken threads and a monitor inside a poll run on *)
+          for _round = 1 to 4 do
+            for i = 1 to !started do c := run_thread big !c (nat_of_int i) done;
+            let m = thread 0 in
+            if not (at_poll_start m) && not (rfinished m) then begin
+              (* run_until_poll = run_poll minus its first step; a blocked first step changes nothing *)
+              let rec go k = if k > 0 then (let m = thread 0 in
+                if not (at_poll_start m) then (match rstep !c O with Some c' -> c := c'; go (k - 1) | None -> ())) in
+              go 6000
+            end
+          done;
+          let e = count_errs !c in
+          if e > !errs then begin errs := e; c := { !c with rc_fetch_or = List.init 3000 (fun _ -> F_transient) } end in
+        List.iter (fun it ->
+          (match it with
+           | IOp _ -> incr started; if !started < nthreads then c := run_thread big !c (nat_of_int !started)
+           | IMine txs -> incr next_hash; c := { !c with rc_pending = !c.rc_pending @ [(n_of_int !next_hash, List.map n_of_int txs)] }
+           | IPoll -> if at_poll_start (thread 0) then c := run_poll big !c O
+           | IArm n -> c := { !c with rc_rpc_or = List.init n (fun _ -> false) @ List.init 3000 (fun _ -> true) }
+           | IFail j -> c := { !c with rc_fetch_or = List.init j (fun _ -> F_ok) @ [F_block_fails] }
+           | IUp -> c := { !c with rc_rpc_or = []; rc_fetch_or = [] }
+           | IOther -> ());
+          settle ()) tail;
+        let role i = if i = 0 then "m" else Printf.sprintf "a%d" (!napi + i - 1) in
+        let wire = List.concat (List.init nthreads (fun i ->
+          List.concat (List.map (function
+            | Some ((k, tx), a) -> [(role i, ((match k with K_getraw -> 0 | K_send -> 1), int_of_n tx, (match a with CallErr -> false | CallVerdict _ -> true)))]
+            | None -> []) (calls_of (nat_of_int i) !c.rc_log)))) in
+        let waits = List.concat (List.init nthreads (fun i ->
+          List.map (fun h -> (role i, List.sort compare (List.map int_of_n h))) (waits_of (nat_of_int i) !c.rc_log))) in
+        let m = thread 0 in
+        let api_stuck = List.exists (fun i -> i >= 1 && i <= !started && not (rfinished (thread i))) (List.init nthreads (fun i -> i)) in
+        Some { m_wire = wire; m_waits = waits; m_deliv = List.map int_of_n (delivered_heights !c.rc_log); m_mon_stuck = (not (at_poll_start m) && not (rfinished m)); m_api_stuck = api_stuck;
+               m_note = "" }
+      end
+    end
 
 let handle (lineno : int) (line : string) (r : reader) : unit =
   let t = next_int r in let n = next_int r in let k = next_int r in let extra = next_int r in
@@ -25,14 +175,99 @@ let handle (lineno : int) (line : string) (r : reader) : unit =
   let get k = try Hashtbl.find kv k with Not_found -> "" in
   let key = Printf.sprintf "%d/%d/%d" t k extra in
   let case = Printf.sprintf "OT %d %d %d %d" t n k extra in
+  (* the monitor of "the same call is retried" on the implementation's wire log, thread by thread *)
+  let wire = (try parse_wire (get "wire") with _ -> []) in
+  List.iter (fun role ->
+    let mine = List.filter (fun w -> w.role = role) wire in
+    incr wire_checked;
+    wire_errors := !wire_errors + List.length (List.filter (fun w -> not w.answered) mine);
+    if not (retry_monitor mine) then begin
+      incr mon_fail;
+      Printf.printf "FAIL mon prop=C12 line=%d detail=retry-is-not-the-same-call:thread=%s,wire=%s case=%s\n" lineno role
+        (show_seq (List.map (fun w -> (w.kind, w.tx, w.answered)) mine)) case
+    end) (List.sort_uniq compare (List.map (fun w -> w.role) wire));
+  (* the monitor of "every block is handed to the listeners exactly once, in order" on the blocks the real chain
+     monitor handed to the real listeners (not for the reorg scenario, which disconnects) *)
+  let deliv = List.map int_of_string (split ',' (get "deliv")) in
+  if t <> 2 && not (consecutive (n_of_int 120) (List.map n_of_int deliv)) then begin
+    incr mon_fail;
+    Printf.printf "FAIL mon prop=C12 line=%d detail=block-handed-to-the-listeners-twice-or-skipped:%s case=%s\n" lineno (get "deliv") case
+  end;
+  blocks_checked := !blocks_checked + List.length deliv;
+  (* the monitor of "answers Unavailable and changes nothing": an add_appointment that was answered `unavailable`
+     (and is the scenario's only submission of that appointment) has left neither a row nor a tracker *)
+  (let mdl = Array.of_list (split '/' (get "mdl")) in
+   let ints = (match Str.search_forward (Str.regexp "state=\\[\\([^]]*\\)\\]") line 0 with
+               | _ -> List.filter_map int_of_string_opt (split ' ' (Str.matched_group 1 line))
+               | exception Not_found -> []) in
+   let rec drop k l = if k <= 0 then l else (match l with [] -> [] | _ :: r -> drop (k - 1) r) in
+   let rows w l = (match l with [] -> ([], []) | n :: r ->
+                     let rec go k l acc = if k = 0 then (List.rev acc, l) else go (k - 1) (drop w l) ((match l with a :: b :: _ -> (a, b) | _ -> (-1, -1)) :: acc) in
+                     go n r []) in
+   let (_, after_users) = rows 4 ints in
+   let (apps, after_apps) = rows 8 after_users in
+   let (trks, _) = rows 6 after_apps in
+   Array.iter (fun tok ->
+     let re = Str.regexp "\\(late:\\)?api\\([0-9]+\\):A\\?unavailable" in
+     if Str.string_match re tok 0 then begin
+       let idx = int_of_string (Str.matched_group 2 tok) in
+       if idx < Array.length mdl then
+         match split ':' mdl.(idx) with
+         | ["A"; u; loc; _; _; _; _] ->
+             let same = List.length (List.filter (fun it -> match split ':' it with ["A"; u'; loc'; _; _; _; _] -> u' = u && loc' = loc | _ -> false) (Array.to_list mdl)) in
+             let key = (int_of_string loc, int_of_string u) in
+             incr refused_adds;
+             if same = 1 && (List.mem key apps || List.mem key trks) then begin
+               incr mon_fail;
+               Printf.printf "FAIL mon prop=C12 line=%d detail=answered-unavailable-but-the-work-was-taken:locator=%s,user=%s case=%s\n" lineno loc u case
+             end
+         | _ -> ()
+     end) r.toks);
   if n < 0 then Hashtbl.replace twin_state key state
   else begin
     let hit = get "hit" = "1" in
+    let ms = get "monitor_stuck" = "1" and as_ = get "api_stuck" = "1" in
+    (* replay on the thread-level model *)
+    if t <> 2 && get "mdl" <> "" then begin
+      let items = List.map parse_item (split '/' (get "mdl")) in
+      let wmark = (try int_of_string (get "wmark") with _ -> -1) in
+      let tail_wire = List.filteri (fun i _ -> i >= wmark) wire in
+      let impl_wire = List.map (fun w -> (w.role, (w.kind, w.tx, w.answered))) tail_wire in
+      let impl_waits = parse_waits (get "sync") in
+      let diffs = List.map (fun v ->
+        match replay v with
+        | None -> Some ("replay", "model could not run the scenario", "-")
+        | Some mo ->
+            let roles = List.sort_uniq compare (roles_of impl_wire @ roles_of mo.m_wire) in
+            let d = ref None in
+            List.iter (fun role ->
+              let a = canon (of_role role mo.m_wire) and b = canon (of_role role impl_wire) in
+              if !d = None && a <> b then d := Some ("rpc-sequence:" ^ role, show_seq a, show_seq b)) roles;
+            let wroles = List.sort_uniq compare (roles_of impl_waits @ roles_of mo.m_waits) in
+            List.iter (fun role ->
+              let a = of_role role mo.m_waits and b = of_role role impl_waits in
+              if !d = None && a <> b then d := Some ("locks-held-at-wait:" ^ role, show_waits a, show_waits b)) wroles;
+            let dmark = (try int_of_string (get "dmark") with _ -> -1) in
+            let impl_deliv = List.filteri (fun i _ -> i >= dmark) deliv in
+            if !d = None && ms = false && as_ = false && mo.m_deliv <> impl_deliv then
+              d := Some ("delivered-blocks", String.concat "," (List.map string_of_int mo.m_deliv), String.concat "," (List.map string_of_int impl_deliv));
+            if !d = None && (mo.m_mon_stuck <> ms || mo.m_api_stuck <> as_) then
+              d := Some ("stuck-threads", Printf.sprintf "mon=%b,api=%b" mo.m_mon_stuck mo.m_api_stuck, Printf.sprintf "mon=%b,api=%b" ms as_);
+            !d) (variants items) in
+      incr replayed;
+      waits_compared := !waits_compared + List.length impl_waits;
+      if not (List.mem None diffs) then begin
+        match List.hd diffs with
+        | Some (f, m, i) ->
+            incr corr_fail;
+            Printf.printf "FAIL corr line=%d field=%s model=[%s] impl=[%s] case=%s\n" lineno f m i case
+        | None -> ()
+      end
+    end;
     if hit && t <> 4 then begin
       incr hits;
       Hashtbl.replace distinct case ();
       let waiter = get "waiter" in
-      let ms = get "monitor_stuck" = "1" and as_ = get "api_stuck" = "1" in
       let observed = if ms && as_ then "both_stuck" else if ms then "monitor_stuck" else if as_ then "api_stuck" else "recovered" in
       let predicted = (match predict (waiter = "mon") (extra = 1) with
                        | O_recovered -> "recovered" | O_monitor_stuck -> "monitor_stuck" | O_both_stuck -> "both_stuck") in
@@ -65,8 +300,8 @@ let handle (lineno : int) (line : string) (r : reader) : unit =
 
 let summary () =
   if !cases > 0 then
-    Printf.printf "SUMMARY kind=OT cases=%d outage_hit=%d corr_fail=%d mon_fail=%d probes=%d distinct_nontrivial=%d classes=%s\n"
-      !cases !hits !corr_fail !mon_fail !probes (Hashtbl.length distinct)
+    Printf.printf "SUMMARY kind=OT cases=%d outage_hit=%d corr_fail=%d mon_fail=%d probes=%d distinct_nontrivial=%d replayed=%d wire_logs=%d wire_errors=%d waits=%d blocks=%d classes=%s\n"
+      !cases !hits !corr_fail !mon_fail !probes (Hashtbl.length distinct) !replayed !wire_checked !wire_errors !waits_compared !blocks_checked
       (String.concat "," (List.sort compare (Hashtbl.fold (fun k v acc -> Printf.sprintf "%s:%d" k v :: acc) classes [])))
 
 let () = register "OT" handle; register_summary summary
